@@ -28,6 +28,7 @@ import collections.abc
 import itertools
 import json
 import os
+import struct
 import traceback
 
 import gal
@@ -60,7 +61,6 @@ ALLOWED_AXIOMS = []
 
 HEADER = "From YV Require Import Model.Convert."
 FLOATS = [0.5, -1.5, 2.25, 1e100, -0.125, 3.75]
-FLOAT_IDX = {f.hex(): i for i, f in enumerate(FLOATS)}
 STRS = ["", "a", "b", "ab", "k", "key", "é", "\U0001F600", "x y"]
 OPTS = [(True, False), (True, True), (False, False), (False, True)]      # (t2l, s2l); first = library default
 SCALARS = ("VNull", "VBool", "VInt", "VFloat", "VStr")
@@ -244,10 +244,8 @@ def tree(obj, reg=None, drain=False):
         return ("VBool", obj)
     if t is int:
         return ("VInt", obj)
-    if t is float:
-        if obj.hex() not in FLOAT_IDX:
-            raise Unsupported("float %r" % obj)
-        return ("VFloat", FLOAT_IDX[obj.hex()])
+    if t is float:                  # opaque leaf: the tag is the bit pattern of the double
+        return ("VFloat", int.from_bytes(struct.pack(">d", obj), "big"))
     if t is str:
         return ("VStr", obj)
     rec = lambda x: tree(x, reg, drain)
@@ -525,6 +523,10 @@ def run_dollar(path, obj, t2l, s2l):
         return observe(lambda: e("$").evaluate(data=obj))
     if path == "iface":
         return observe(lambda: yaql_interface.YaqlInterface(ctx(), e)("$1", obj))
+    if path == "iface_stub":              # YaqlInterface.__getattr__: direct call of a library function
+        if obj is None:
+            return run_dollar("iface", obj, t2l, s2l)
+        return observe(lambda: yaql_interface.YaqlInterface(ctx(), e).coalesce(obj))
     if path == "yaql_eval":               # module-level helper: the library's own default engine and context
         if (t2l, s2l) != OPTS[0]:
             return run_dollar("dollar", obj, t2l, s2l)
@@ -784,7 +786,7 @@ def all_cases(run, n):
         elif r < 0.70:
             spec = gen_spec(rng, depth, idfree=True)
             for (t2l, s2l) in OPTS:
-                out.append(make_case("KDollar", rng.choice(["dollar", "dollar", "dollar_newctx", "iface", "yaql_eval"]), t2l, s2l, {"spec": spec}))
+                out.append(make_case("KDollar", rng.choice(["dollar", "dollar", "dollar_newctx", "iface", "iface_stub", "yaql_eval"]), t2l, s2l, {"spec": spec}))
         else:
             expr = gen_expr(rng, rng.choice([1, 2, 2, 3]))
             data = gen_spec(rng, 2, idfree=True) if "$" in expr else None
@@ -801,8 +803,27 @@ def all_cases(run, n):
 NONPLAIN = {"VTuple", "VFDict", "VFSet", "VIter", "VOrd", "VView:KKeys", "VView:KValues", "VView:KItems"}
 
 
+def coqchk(run):
+    """thorough tier: independent re-check of the compiled proofs; must report no axioms"""
+    import subprocess
+    from core import COQ
+    try:
+        p = subprocess.run(["coqchk", "-silent", "-o", "-Q", ".", "YV", "YV.Props.C10"], cwd=COQ,
+                           capture_output=True, text=True, timeout=1500)
+        out = p.stdout + p.stderr
+    except Exception as e:
+        run.note("coqchk could not be run: %r" % e)
+        return
+    if p.returncode != 0 or "Axioms: <none>" not in out:
+        run.fail("proof", "coqchk does not accept Props/C10.vo without axioms", {"log": out[-2000:]})
+    else:
+        run.note("coqchk -o YV.Props.C10: accepted, Axioms: <none>")
+
+
 def correspondence(run):
-    cases = all_cases(run, run.n(1500, 12000))
+    if not run.quick and run.proof.get("ok"):
+        coqchk(run)
+    cases = all_cases(run, run.n(1500, 30000))
     for i, c in enumerate(cases):
         kinds = tree_kinds(c.tin, set())
         run.case((c.kind, c.path, c.t2l, c.s2l, jtree(c.tin)), nontrivial=tree_depth(c.tin) >= 2 or bool(kinds & NONPLAIN))
@@ -860,7 +881,7 @@ def oracle(run, deep):
     rng = run.rng
     # O1: every result of every expression is plain; finalisation of a successful evaluation never raises
     exprs = [(e, DATA_FOR_DOLLAR) for e in FIXED_EXPRS]
-    for _ in range(run.n(600, 5000) * (3 if deep else 1)):
+    for _ in range(run.n(600, 12000) * (3 if deep else 1)):
         e = gen_expr(rng, rng.choice([1, 2, 3, 3]))
         exprs.append((e, gen_spec(rng, 2, idfree=True) if "$" in e else None))
     for expr, data in exprs:
@@ -874,10 +895,10 @@ def oracle(run, deep):
             run.cov["evaluations"] += 1
             check_result(run, {"expr": expr, "data": data}, "expr", t2l, s2l, raw if raw != "unsupported" else None, obs, exc, res)
     # O2: round trip of JSON-like documents through `$` on every path
-    for _ in range(run.n(800, 6000) * (3 if deep else 1)):
+    for _ in range(run.n(800, 15000) * (3 if deep else 1)):
         spec = gen_doc_spec(rng, rng.choice([1, 2, 3, 4]))
         for (t2l, s2l) in OPTS:
-            for path in (("dollar", "iface", "dollar_newctx", "yaql_eval") if rng.random() < 0.2 else ("dollar",)):
+            for path in (("dollar", "iface", "iface_stub", "dollar_newctx", "yaql_eval") if rng.random() < 0.2 else ("dollar",)):
                 bad = roundtrip_check(spec, path, t2l, s2l)
                 run.cov["evaluations"] += 1
                 run.count("O:roundtrip-" + ("ok" if bad is None else "FAIL"))
@@ -885,7 +906,7 @@ def oracle(run, deep):
                     run.fail("violation", "`$` does not give the JSON-like document back in canonical container types", bad)
     oracle_input(run, deep)
     # O3: random host values of every constructor straight into the finaliser
-    for _ in range(run.n(800, 6000) * (3 if deep else 1)):
+    for _ in range(run.n(800, 15000) * (3 if deep else 1)):
         spec = gen_spec(rng, rng.choice([1, 2, 3, 4]))
         for (t2l, s2l) in OPTS:
             reg = {}
@@ -901,7 +922,7 @@ def oracle(run, deep):
 def oracle_input(run, deep):
     """O4: convert_input_data never raises and leaves no mutable / host container behind"""
     rng = run.rng
-    for _ in range(run.n(300, 6000) * (3 if deep else 1)):
+    for _ in range(run.n(500, 15000) * (3 if deep else 1)):
         spec = gen_spec(rng, rng.choice([1, 2, 3, 4]))
         run.cov["evaluations"] += 1
         try:
@@ -979,6 +1000,17 @@ def replay(run, data):
     c = make_case(d["kind"], d["path"], t2l, s2l, origin)
     if not isinstance(c, Case):
         return False
-    if judge(c):
+    if run.coq_mismatches(HEADER, "case", "case_ok", [c.term()]):
         return False
-    return not run.coq_mismatches(HEADER, "case", "case_ok", [c.term()])
+    verdict = judge(c)
+    if verdict:
+        # the model agrees with the implementation and the property still fails: only the recorded
+        # open finding (F8) is allowed to do that
+        import core
+        f = core.Failure("violation", verdict[0], {**c.data(), **verdict[1]})
+        known = [k for k in core.load_known() if k.get("property") == "C10" and k.get("status") == "open"]
+        label = classify(f, known)
+        if not label:
+            return False
+        core.log("KNOWN-FINDING: property=C10 %s (%s)" % (label, verdict[0]))
+    return True
